@@ -3508,6 +3508,12 @@ static Token *function(Token *tok, Type *basety, VarAttr *attr) {
       fn->is_static = false;
     }
   } else {
+    if (scope->next == NULL) {
+      VarScope *sc = hashmap_get2(&scope->vars, ty->name->loc, ty->name->len);
+      if (sc && sc->var && !sc->var->is_function)
+        error_tok(ty->name, "redeclared as a different kind of symbol");
+    }
+
     fn = new_gvar(name_str, ty);
     fn->is_function = true;
     fn->is_definition = equal(tok, "{");
